@@ -3,6 +3,8 @@ package main
 import (
 	"bytes"
 	"context"
+	"crypto/sha256"
+	"encoding/hex"
 	"errors"
 	"fmt"
 	"io"
@@ -11,6 +13,7 @@ import (
 	"sort"
 	"strings"
 	"sync"
+	"syscall"
 	"time"
 
 	"github.com/benbjohnson/litestream"
@@ -48,6 +51,10 @@ type Mut struct {
 	// junk <output>-wal, <output>-shm, <output>.tmp-wal; restore target as for disk-delete-set (TXID / TS).
 	TmpKind string `json:"tmp_kind,omitempty"` // image (a larger previously restored image) | random | sqlite (a valid larger database)
 	TmpRel  string `json:"tmp_rel,omitempty"`  // longer | equal | shorter — than the database about to be restored
+	// preexist: what occupies the output path before the call: "" (non-empty sentinel file) | empty (0-byte
+	// file) | one (1-byte file) | sqlite (valid database) | dir | symlink (to an existing file) | fifo |
+	// dangling (symlink to a missing target: os.Stat says "not exist" — observed, not part of the oracle)
+	PreKind string `json:"pre_kind,omitempty"`
 }
 
 type RestoreCase struct {
@@ -253,6 +260,10 @@ type workerResp struct {
 	OK    bool     `json:"ok"`
 	Fired int      `json:"fired"`
 	Log   []string `json:"log"`
+	// preexist with PreKind: identity (inode, type, size, mtime, content / link target / dir entries) of the
+	// pre-existing object before and after the call
+	PreBefore string `json:"pre_before,omitempty"`
+	PreAfter  string `json:"pre_after,omitempty"`
 }
 
 // doRestore runs the real Restore for one mutation (inside a worker process).
@@ -294,15 +305,28 @@ func doRestore(q workerReq) workerResp {
 		p := q.Plan[m.File]
 		fc.target = &ltx.FileInfo{Level: p.Level, MinTXID: ltx.TXID(p.Min), MaxTXID: ltx.TXID(p.Max)}
 	}
+	preBefore := ""
 	if m.Kind == "preexist" {
-		os.WriteFile(out, sentinel, 0o644)
+		if err := plantExisting(out, m.PreKind, q.Plant); err != nil {
+			return workerResp{Err: "HARNESS: " + err.Error()}
+		}
+		preBefore = identity(out)
 	}
 	r := litestream.NewReplicaWithClient(nil, fc)
 	opt := litestream.NewRestoreOptions()
 	opt.OutputPath = out
 	opt.IntegrityCheck = litestream.IntegrityCheckMode(m.Integrity)
+	if m.Kind == "preexist" {
+		opt.TXID = ltx.TXID(m.TXID)
+		if m.TS != 0 {
+			opt.Timestamp = time.UnixMilli(m.TS).UTC()
+		}
+	}
 	err := r.Restore(context.Background(), opt)
 	resp := workerResp{OK: err == nil, Fired: fc.fired, Log: fc.log}
+	if m.Kind == "preexist" {
+		resp.PreBefore, resp.PreAfter = preBefore, identity(out)
+	}
 	if err != nil {
 		resp.Err = err.Error()
 	}
@@ -411,11 +435,23 @@ func inspect(m Mut, outDir string, want []byte, resp *workerResp, crash string) 
 			o.Res = restoreErrKind(errors.New(resp.Err))
 		}
 	}
-	got, rerr := os.ReadFile(out)
+	var got []byte
+	rerr := errors.New("not a regular file")
+	if fi, err := os.Stat(out); err != nil {
+		rerr = err
+	} else if fi.Mode().IsRegular() { // never open a FIFO / directory planted at the output path
+		got, rerr = os.ReadFile(out)
+	}
 	switch {
-	case rerr != nil:
+	case rerr != nil && !(m.Kind == "preexist" && m.PreKind != "dangling" && resp != nil && resp.PreBefore != ""):
 		o.Out = "absent"
-	case m.Kind == "preexist" && bytes.Equal(got, sentinel):
+	case m.Kind == "preexist" && m.PreKind != "dangling" && resp != nil && resp.PreBefore != "":
+		if resp.PreBefore == resp.PreAfter {
+			o.Out = "pre"
+		} else {
+			o.Out = fmt.Sprintf("WRONG(pre-existing %s changed: before {%s} after {%s})", m.PreKind, resp.PreBefore, resp.PreAfter)
+		}
+	case m.Kind == "preexist" && m.PreKind == "" && bytes.Equal(got, sentinel):
 		o.Out = "pre"
 	case want != nil && bytes.Equal(got, want):
 		o.Out = "complete"
@@ -450,9 +486,9 @@ func restoreOracle(m Mut, o restoreObs) string {
 	if o.Tmp != "absent" {
 		return "<output>.tmp left behind after Restore returned (" + o.Res + ")"
 	}
-	if m.Kind == "preexist" {
+	if m.Kind == "preexist" && m.PreKind != "dangling" {
 		if o.Res == "ok" {
-			return "Restore succeeded although the output path existed"
+			return "Restore succeeded although the output path existed (" + m.PreKind + "): " + o.Out
 		}
 		if o.Out != "pre" {
 			return "pre-existing output path was modified: " + o.Out
@@ -645,4 +681,65 @@ func maxKey(m map[int]bool) int {
 		}
 	}
 	return x
+}
+
+// plantExisting puts an object at the output path before Restore is called.
+func plantExisting(out, kind, plant string) error {
+	switch kind {
+	case "":
+		return os.WriteFile(out, sentinel, 0o644)
+	case "empty":
+		return os.WriteFile(out, nil, 0o644)
+	case "one":
+		return os.WriteFile(out, []byte{0x53}, 0o644)
+	case "sqlite":
+		b, err := os.ReadFile(plant)
+		if err != nil {
+			return err
+		}
+		return os.WriteFile(out, b, 0o644)
+	case "dir":
+		if err := os.Mkdir(out, 0o755); err != nil {
+			return err
+		}
+		return os.WriteFile(filepath.Join(out, "inside"), sentinel, 0o644)
+	case "symlink":
+		if err := os.WriteFile(out+".target", nil, 0o644); err != nil { // a fresh, still empty database elsewhere
+			return err
+		}
+		return os.Symlink(out+".target", out)
+	case "dangling":
+		return os.Symlink(out+".missing", out)
+	case "fifo":
+		return syscall.Mkfifo(out, 0o644)
+	}
+	return fmt.Errorf("unknown pre-existing kind %q", kind)
+}
+
+// identity describes the object at a path without following symlinks (and the target of a symlink).
+func identity(p string) string {
+	fi, err := os.Lstat(p)
+	if err != nil {
+		return "absent"
+	}
+	ino := uint64(0)
+	if st, ok := fi.Sys().(*syscall.Stat_t); ok {
+		ino = st.Ino
+	}
+	d := fmt.Sprintf("ino=%d mode=%v size=%d mtime=%d", ino, fi.Mode(), fi.Size(), fi.ModTime().UnixNano())
+	switch {
+	case fi.Mode().IsRegular():
+		b, _ := os.ReadFile(p)
+		h := sha256.Sum256(b)
+		d += " sha=" + hex.EncodeToString(h[:6])
+	case fi.Mode()&os.ModeSymlink != 0:
+		t, _ := os.Readlink(p)
+		d += " -> " + t + " [" + identity(t) + "]"
+	case fi.IsDir():
+		ents, _ := os.ReadDir(p)
+		for _, e := range ents {
+			d += " " + e.Name()
+		}
+	}
+	return d
 }
